@@ -4,6 +4,9 @@
 //! stdin line:  run <filter index> <op>,<op>,...
 //!   a:<kind>.<serial>.<reply>.<member>.<sender 0|1>.<iface 0|1>   the peer writes this message
 //!         kind c|s|r|e ; reply 0 = none ; member - = none
+//!   ap:<spec>:<k>   the peer writes only the first k bytes of that message (k: <n> | b+<d> | b-<d> | e-<d>,
+//!                   b = first byte of the body, e = length; clamped to 1..len-1) ; result token p
+//!   af              the peer writes the rest of it ; result token = the filter's verdict as for `a`
 //!   tr:<s> | ts | tc                      try_get_response / try_get_signal / try_get_call
 //!   wr:<s>:<mode> | ws:<mode> | wc:<mode> wait_* ; mode I = Duration(2 s) standing in for Infinite (the message is there), N = Nonblock, D = Duration(1ms)
 //!   ro:<mode>                             refill_once
@@ -133,6 +136,9 @@ fn build(spec: &str) -> (MarshalledMessage, NonZeroU32) {
     };
     msg.dynheader.sender = sender;
     msg.body.push_param(serial.get()).unwrap();
+    // a string argument of 0..59 bytes (from the serial) so that body-internal split positions exist
+    let filler: String = (0..(serial.get() as usize * 7) % 60).map(|i| (b'a' + (i % 26) as u8) as char).collect();
+    msg.body.push_param(filler.as_str()).unwrap();
     (msg, serial)
 }
 
@@ -185,6 +191,22 @@ fn drain_peer(peer: &mut std::os::unix::net::UnixStream, pending: &mut Vec<u8>) 
 /// Timeout::Infinite keeps the harness alive when the implementation does not find it (reported as HANG)
 const LONG_MS: u64 = 2000;
 
+/// where to cut an arrival that is written in two pieces: `<n>` absolute, `b+<d>` / `b-<d>` relative to the first
+/// byte of the body, `e-<d>` relative to the end; clamped to 1..len-1
+fn split_pos(tok: &str, body_start: usize, len: usize) -> usize {
+    let num = |s: &str| s.parse::<i64>().unwrap_or(0);
+    let k: i64 = if let Some(d) = tok.strip_prefix("b+") {
+        body_start as i64 + num(d)
+    } else if let Some(d) = tok.strip_prefix("b-") {
+        body_start as i64 - num(d)
+    } else if let Some(d) = tok.strip_prefix("e-") {
+        len as i64 - num(d)
+    } else {
+        num(tok)
+    };
+    k.clamp(1, len as i64 - 1) as usize
+}
+
 fn tmo(mode: &str) -> Timeout {
     match mode {
         "I" => Timeout::Duration(std::time::Duration::from_millis(LONG_MS)),
@@ -215,23 +237,42 @@ fn run(fidx: u32, ops: &str) -> String {
     peer.set_nonblocking(true).unwrap();
     let mut pending = Vec::new();
     let mut out = Vec::new();
+    let mut rest: Option<(Vec<u8>, &'static str)> = None;
     for op in ops.split(',') {
         if op.is_empty() {
             continue;
         }
         let p: Vec<&str> = op.split(':').collect();
         let tok = match p[0] {
-            "a" => {
+            "a" | "ap" => {
                 let (msg, serial) = build(p[1]);
                 let mut buf = Vec::new();
                 rustbus::wire::marshal::marshal(&msg, serial, &mut buf).unwrap();
+                let body_start = buf.len();
                 buf.extend_from_slice(msg.get_buf());
-                peer.write_all(&buf).unwrap();
                 // the filter's verdict on the message as it will be received (serial set)
                 let mut seen = msg;
                 seen.dynheader.serial = Some(serial);
-                if filter_family(fidx, &seen) { "+".to_string() } else { "-".to_string() }
+                let verdict = if filter_family(fidx, &seen) { "+" } else { "-" };
+                if p[0] == "a" {
+                    peer.write_all(&buf).unwrap();
+                    verdict.to_string()
+                } else {
+                    // only the first k bytes now; the rest with the next `af`. On a local socket the bytes are
+                    // queued at the receiver when write returns, so the next client operation sees exactly them.
+                    let k = split_pos(p[2], body_start, buf.len());
+                    peer.write_all(&buf[..k]).unwrap();
+                    rest = Some((buf[k..].to_vec(), verdict));
+                    "p".to_string()
+                }
             }
+            "af" => match rest.take() {
+                Some((bytes, verdict)) => {
+                    peer.write_all(&bytes).unwrap();
+                    verdict.to_string()
+                }
+                None => "?".to_string(),
+            },
             "tr" => match rpc.try_get_response(NonZeroU32::new(p[1].parse().unwrap()).unwrap()) {
                 Some(m) => format!("M{}", ident(&m)),
                 None => "N".to_string(),
